@@ -53,7 +53,8 @@ WORLD = {}     # world parameters of the configuration being replayed (resources
 
 def world_args(consts):
     return dict(nres=max(consts.get('NRes', 0), 1), resinit=consts.get('ResInit', 2),
-                reskind=consts.get('_reskind', 'res'), horizon=consts.get('Horizon', float('inf')))
+                reskind=consts.get('_reskind', 'res'), horizon=consts.get('Horizon', float('inf')),
+                nt=consts.get('NT', 1), resinitb=consts.get('ResInitB', 0))
 
 
 def _run_one(args):
